@@ -365,8 +365,15 @@ pub fn run_walk(case: &Case) -> Result<CallStack, String> {
             bytes,
             endian: scroll::LE,
         });
+        // a walk that does not stop would exhaust memory: cut it off well past the C03 bound
+        let limit = case.stack.as_ref().map(|s| s.1.len()).unwrap_or(0) + 64;
+        let guard = move |idx: usize, _f: &minidump_unwind::StackFrame| {
+            if idx > limit {
+                panic!("walk exceeded {limit} frames (stack bytes + 64): no progress");
+            }
+        };
         RT.with(|rt| {
-            rt.block_on(walk_stack(0, (), &mut stack, mem.as_ref().map(UnifiedMemory::Memory), &modules, &sysinfo, &symbolizer))
+            rt.block_on(walk_stack(0, guard, &mut stack, mem.as_ref().map(UnifiedMemory::Memory), &modules, &sysinfo, &symbolizer))
         });
         stack
     })
@@ -1143,7 +1150,11 @@ impl Engine for Walk {
             Err(msg) => {
                 res.out = "PANIC".into();
                 res.tags.push("panic".into());
-                res.oracle.push(("walk-panics".into(), msg));
+                if msg.starts_with("walk exceeded") {
+                    res.oracle.push(("too-many-frames".into(), msg));
+                } else {
+                    res.oracle.push(("walk-panics".into(), msg));
+                }
             }
             Ok(stack) => {
                 res.out = show_stack(&c, &stack);
